@@ -34,7 +34,6 @@ REASONS = {
     "varintDeltaGet": "single-delta primitive used by the delta array codec (exercised through it)",
     "varintDeltaPut": "same",
     "varintExternalSignedEncoding": "asserts on negative input; equals UnsignedEncoding otherwise (exercised through the macro varintExternalLen)",
-    "varintGroupGetFieldWidth": "width code of one field; not a listed metadata item",
 }
 
 
